@@ -385,10 +385,11 @@ func IsFieldLoad(v ssa.Value, owner *types.Named, name string) (*ssa.FieldAddr, 
 // ConstInt returns the integer value of a constant.
 func ConstInt(v ssa.Value) (int64, bool) {
 	k, ok := v.(*ssa.Const)
-	if !ok || k.Value == nil {
+	if !ok || k.Value == nil || k.Value.Kind() != constant.Int {
 		return 0, false
 	}
-	return k.Int64(), true
+	i, exact := constant.Int64Val(k.Value)
+	return i, exact
 }
 
 // ConstString returns the value of a string constant.
